@@ -1,4 +1,5 @@
 """C13 — nucleotide and protein inputs are recognised from their residue letters."""
+import os
 from lib import common as C
 from lib import gen, sysrun
 from lib.sysrun import Case
@@ -130,6 +131,48 @@ def run(ctx):
                 c = Case(recs, t, fmt="msf", intext=txt, tag="%s type=%d" % (tag, t))
                 c.exp = exp
                 cases.append(c)
+    # large inputs whose composition is very uneven along the file (the decision must see every residue of every sequence, in any order):
+    # detection only, through kalign_read_input (op h_read prints the class)
+    sc_ = C.scratch()
+    big_lines, big_meta = [], []
+    for j in range(6 if ctx.quick else 40):
+        nseq, L = rng.choice([(150, 500), (40, 3000), (300, 400), (1200, 60)])
+        want = rng.choice([0, 1])
+        recs_ = []
+        if want == 0:
+            # peptides spelled only with A/C/G/T/N in the first part, protein-rich ones after it; overall >= a quarter protein-only letters
+            nlead = int(nseq * rng.choice([0.5, 0.6, 0.68]))
+            for k in range(nseq):
+                if k < nlead:
+                    recs_.append(("p%d" % k, gen.rand_seq(rng, "ACGTN", L)))
+                else:
+                    recs_.append(("p%d" % k, gen.rand_seq(rng, "DEFHIKLMPQRSVWY", L)))
+        else:
+            recs_ = [("n%d" % k, gen.rand_seq(rng, "ACGTUNacgtun", L)) for k in range(nseq)]
+        tot_ = sum(len(q) for _, q in recs_)
+        po_ = sum(1 for _, q in recs_ for ch in q if ch in PROT_ONLY)
+        if want == 0 and 4 * po_ < tot_:
+            continue
+        for order in ("as is", "reversed", "shuffled"):
+            rr = list(recs_)
+            if order == "reversed":
+                rr.reverse()
+            elif order == "shuffled":
+                rng.shuffle(rr)
+            path = os.path.join(sc_, "c13_big_%d_%s.fa" % (j, order.replace(" ", "")))
+            open(path, "w").write(gen.fasta_text(rr, width=rng.choice([60, 80, 1000])))
+            big_lines += ["h_read 0 %s" % path, "h_free 0"]
+            big_meta.append((want, order, path, tot_))
+    rc_, ob, eb = C.run_lines(kvh, big_lines, env=C.SAN_ENV, timeout=1200)
+    for k, (want, order, path, tot_) in enumerate(big_meta):
+        ctx.evaluations += 1
+        o = ob[2 * k] if 2 * k < len(ob) else ""
+        if "biotype=%d" % want not in o:
+            fails.append(("large input (%d residues, composition uneven along the file, order %s): detected %r, expected class %d" % (tot_, order, o[:80], want),
+                          dict(file_head=open(path).read()[:2000], records=len(open(path).read().split(">")) - 1)))
+        else:
+            ctx.count("large_inputs_ok")
+        os.remove(path)
     sysrun.run_cases(kvh, cases)
     for c in cases:
         ctx.evaluations += 1
